@@ -41,6 +41,13 @@ CHECKS = {
               "group empty, every local child exited, failed makegateway leaves no process.",
               "DESIGN.md 3/C05", "process/signal fault injection, bounded-liveness oracle in simulated time",
               "Two terminate-blocked scenarios are listed known findings."),
+    "C06": gw("Seeded schedule search over generated remote programs in all three forms (string, function + kwargs, module file) "
+              "with sends, receives, a refused close() and a raise at a generated statement: namespace, type-exact kwargs, items, "
+              "close exactly at the end of the body, RemoteError naming the original file and line; and invalid function "
+              "shapes rejected with ValueError/TypeError while the wire log stays byte-identical.",
+              "DESIGN.md 3/C06", "generated-source programs; history oracle; wire-length invariant for local rejection",
+              "The stdio clause (nothing printed remotely enters the protocol stream) depends on real fd redirection, which is "
+              "the stubbed part: NOT decided."),
     "C07": gw("Seeded schedule search over failure positions of raising bodies / raising callbacks (channel alive or dropped) "
               "with sibling traffic and a liveness probe; scripted expected outcomes per op.",
               "DESIGN.md 3/C07", "scripted-expectation oracle",
@@ -83,11 +90,24 @@ CHECKS = {
               "sequential and overlapping submission on main_thread_only workers: main-thread identity, one at a time, "
               "submission order, documented deadlock error for overlaps only.",
               "DESIGN.md 3/C14", "scripted-expectation oracle + body-span checks"),
+    "C15": gw("C16's deterministic channel scripts run on an import-bootstrapped worker (reference) and on five source-only "
+              "bootstrap paths (python=, ssh, ssh+config, via a bare master, socket server on a bare master) whose workers "
+              "execute the shipped bytes in a fresh __main__ under an import guard that refuses execnet and non-stdlib modules; "
+              "transcripts identical, bootstrap kind and argv shape of every child checked.",
+              "DESIGN.md 3/C15", "differential transcripts bare vs import bootstrap; import guard on executed paths",
+              "Emulation limits: no real interpreter / -S -E / ssh; only executed paths are judged (a static 'no reference on "
+              "any path' reading is not decided)."),
     "C16": gw("The same generated schedule-independent two-party channel program (items to 200 KB both ways, sub-channels bare and "
               "nested, callback bursts, closes, makefile reads, final return/raise) is run on popen, bare popen, socket and "
               "proxied gateways under independent seeded schedules; transcripts must be identical and match the scripted "
               "reference outcomes. Control family: ProxyIO kill/close_write/wait must reach the proxied process.",
               "DESIGN.md 3/C16", "differential transcripts across transports + scripted reference model"),
+    "C17": gw("Real RSync + real rsync_remote over 1-3 simulated workers on a REAL scratch file system: generated trees, prior "
+              "target states, delete flag, cwd, modify-then-resync steps, seeded listdir order and schedules of the multiplexed "
+              "callbacks; oracle: content/mode/mtime/kind equality, lexical symlink expectation, delete/no-delete rules, "
+              "idempotent re-sync (no content transferred, nothing changed).",
+              "DESIGN.md 3/C17", "schedule search over target interleavings; tree-equality oracle on a real scratch FS",
+              "Weakest fit: the file system is real (no disk faults); only the multiplexing of targets is schedule dependent."),
     "C18": gw("Seeded schedule search with line preemption aimed at the id allocator over concurrent channel creation on both "
               "sides (ids pairwise distinct), and long lockstep histories (10-400, thorough up to 3000 cycles) of open -> "
               "transfer (bare/nested) -> use -> close/drop(+gc) conversations (items arrive on the originator's channel, "
